@@ -47,6 +47,28 @@ pub mod numopt {
     }
 }
 
+/// Deserialization of the optional chain ID of a legacy transaction.
+///
+/// The EIP-155 `v` value of a signature is `35 + 2 * chain_id + y_parity`, so
+/// chain IDs for which this does not fit in 256 bits are refused.
+pub mod chainid {
+    use ethnum::U256;
+    use serde::de::{self, Deserializer};
+
+    pub fn deserialize<'de, D>(deserializer: D) -> Result<Option<U256>, D::Error>
+    where
+        D: Deserializer<'de>,
+    {
+        let chain_id = super::numopt::deserialize(deserializer)?;
+        if chain_id.is_some_and(|chain_id| chain_id > (U256::MAX - 36) / 2) {
+            return Err(de::Error::custom(
+                "chain ID too large for EIP-155 replay protection",
+            ));
+        }
+        Ok(chain_id)
+    }
+}
+
 /// Dynamic byte array serialization methods.
 pub mod bytes {
     use serde::{
